@@ -470,6 +470,13 @@ func (conn *Conn) postConnect(ctx context.Context, start bool) {
 		bufio.NewWriter(conn.sock))
 	if start {
 		ctx, conn.die = context.WithCancel(ctx)
+		// Cancellation has to end the connection even when send is stuck in
+		// a socket write and runLoop is inside a handler that waits on the
+		// full output queue, so neither can notice it themselves.
+		go func(epoch uint64) {
+			<-ctx.Done()
+			conn.closeEpoch(epoch)
+		}(conn.epoch)
 		conn.wg.Add(3)
 		go conn.send(ctx)
 		go conn.recv()
